@@ -279,3 +279,38 @@ CHECKS["C19"] = {
         {"name": "TestRegression.*", "quick": {}, "thorough": {}},
     ],
 }
+
+CHECKS["C06"] = {
+    "pkg": "./c06/",
+    "level": "exploration",
+    "technique": ("stateful property-based testing (rapid state machine, ~60 operations per history) of queue.FanOutQueue / ConsumerGroup against an independent "
+                  "reference model + invariants after every step; real-goroutine consume-vs-ack stress variant (under -race in the thorough tier) with interleaving-independent oracle"),
+    "rule": ("rapid state machine over queue.NewFanOutQueue with 1-4 consumer groups (names = node ids): append (self-describing messages 8 B..70 KB), consume (also the blocked "
+             "consumer that is woken by the next append), ack inside / below / above [ack, consumed] and above appended, catch-up of one/all groups with different tails, "
+             "SetConsumedSeq in [ack, appended], Sync, GC, Sync+GC (partition.IsExpire), create group / re-create stopped group, StopConsumerGroup of an empty group, Pause, "
+             "reopen (Close + NewFanOutQueue), forward SetAppendedSeq (also to just below an index-page boundary, so that index-page hand-over and page removal happen with small messages). "
+             "After every step: positions == model; per group ack <= consumed <= appended; queue ack forward only (outside a reset), <= appended, <= every ack the existing groups showed before "
+             "the step in which it moved; every sequence in (queue ack, appended] readable byte for byte; Get beyond appended fails; Pending/IsEmpty/ConsumerGroupNames consistent. "
+             "history non-trivial = (>= 2 groups with different acks at a GC that removed >= 1 page file) or (a reopen with some position != -1); TestGroupHistoryRollOver additionally needs a data-page roll-over "
+             "or a 262144-message index roll-over; TestQueueAckBarrier = some SetAcknowledgedSeq accepted and some refused; distinct = hash of the operation log"),
+    "level_text": ("Generated-history exploration on one goroutine with a model oracle (thousands of histories per run; thorough tier adds 35-70 MiB messages for real data-page roll-over and a bulk append across "
+                   "a real index-page boundary), plus an unsystematic goroutine run for the 'schedules' half of the quantifier: appender, one consumer + one acker per group, Sync+GC ticker, observer; "
+                   "its assertions hold under every interleaving, so it cannot raise false alarms."),
+    "level_note": ("Trusted: tmpfs + MAP_SHARED (positions are in the file as soon as they are stored); process-crash recovery of the meta pages is C05/C07 territory. A brand-new group may start at -1/-1 "
+                   "(implementation) or at the queue ack (interface comment) - both accepted. Consume that would block forever is not called. Pre-emption at arbitrary instructions only via the stress variant."),
+    "assumptions": ["single appender (overlapping appends belong to C05)",
+                    "SetConsumedSeq only with own ack <= seq <= appended (what replicator_local/remote pass)",
+                    "FanOutQueue.SetAppendedSeq only forward (follower reset and leader reset are both forward) and only while no stopped group's meta is on disk",
+                    "StopConsumerGroup only for a group that IsEmpty (partition.IsExpire)",
+                    "one acker goroutine per group (documented usage); ack values >= -1",
+                    "a group further than 3000 sequences behind is not walked in the small-message machine"],
+    "tests": [
+        {"name": "TestGroupHistory", "quick": 3000, "thorough": {"checks": 12000, "shards": 14}},
+        {"name": "TestQueueAckBarrier", "quick": 1000, "thorough": {"checks": 10000, "shards": 1}},
+        {"name": "TestGroupHistoryRollOver", "thorough": {"checks": 8, "shards": 2, "timeout": 3000}},
+        {"name": "TestConcurrentConsumeAck", "quick": {}, "thorough": {"race": True, "timeout": 3000}},
+        {"name": "TestRegression_ReopenAckAboveConsumed", "quick": {}, "thorough": {}},
+        {"name": "TestRegression_RecreateStoppedGroupAckAboveConsumed", "quick": {}, "thorough": {}},
+        {"name": "TestRegression_Example", "quick": {}, "thorough": {}},
+    ],
+}
